@@ -74,6 +74,8 @@ structure Frag where
   res : Nat := 2
   /-- second result register (`DivRem::div_rem` returns `(quotient, remainder)`) -/
   res2 : Option Nat := none
+  /-- third result register (`ExtendedGcd::gcd_ext` returns `(g, s, t)`) -/
+  res3 : Option Nat := none
   deriving Repr
 
 inductive Form where
@@ -89,6 +91,12 @@ def wval (W : Nat) : List Nat → Nat
 def toWords (W : Nat) : Nat → Nat → List Nat
   | 0, _ => []
   | len + 1, v => v % 2 ^ W :: toWords W len (v / 2 ^ W)
+
+/-- `v / 2^n` without building `2^n` when `n` exceeds the bit length (shift counts up to `usize::MAX` are driven) -/
+def shrNat (v n : Nat) : Nat := if Nat.log2 v < n then 0 else v / 2 ^ n
+
+/-- `v % 2^n ≠ 0` (`are_low_bits_nonzero`) without building `2^n` when `n` exceeds the bit length -/
+def lowBitsNonzero (v n : Nat) : Bool := if Nat.log2 v < n then decide (v ≠ 0) else decide (v % 2 ^ n ≠ 0)
 
 section
 variable (W mx : Nat)
@@ -436,13 +444,19 @@ def fragShl (byVal : Bool) (a : List Nat) (rhs : Nat) : Frag :=
   let fr : Frag :=
     if isSmall a then
       if va = 0 then { ops := [.fromWord 2 0] }
-      else if va * 2 ^ rhs < 2 ^ (2 * W) then
+      else if rhs < 2 * W ∧ va * 2 ^ rhs < 2 ^ (2 * W) then
         { ops := [.fromDword 2 ((va * 2 ^ rhs) % 2 ^ W) ((va * 2 ^ rhs) / 2 ^ W)] }
+      -- `Buffer::allocate` beyond MAX_CAPACITY: the documented allocation panic before any allocator call
+      else if sw + (if va = 1 then 1 else 3) > mx then { ops := [], panic := some .allocTooMuch }
       else if va = 1 then
         { ops := [.allocate 2 (sw + 1), .pushZeros 2 sw, .push 2 (2 ^ sb), .fromBuffer 2] }
       else
         let t := va * 2 ^ sb
         { ops := [.allocate 2 (sw + 3), .pushZeros 2 sw] ++ (toWords W 3 t).map (AOp.push 2) ++ [.fromBuffer 2] }
+    else if sw + la + 1 > mx then
+      -- `shl_large_ref`: `Buffer::allocate(shift_words + len + 1)` beyond MAX_CAPACITY panics; a by-value operand is
+      -- dropped by unwinding
+      { ops := [], panic := some .allocTooMuch, cleanup := if byVal then [.drop 0] else [] }
     else
       let t := va * 2 ^ sb
       let carry := t / 2 ^ (W * la)
@@ -461,7 +475,7 @@ def fragShr (byVal : Bool) (a : List Nat) (rhs : Nat) : Frag :=
   let la := a.length; let va := wval W a
   let pre : List AOp := if byVal then [.intoTyped 0] else []
   let sw := rhs / W
-  let r := va / 2 ^ rhs
+  let r := shrNat va rhs
   let fr : Frag :=
     if isSmall a then
       if rhs < 2 * W then { ops := [.fromDword 2 (r % 2 ^ W) (r / 2 ^ W)] } else { ops := [.fromWord 2 0] }
